@@ -96,7 +96,11 @@ def inCfgOf (sp : SiteSpec) : InCfg :=
     keys := siteKeys sp
     prepare := if sp.handler == "wrap" then some (fun _ v => some (.atom (wrapText (valText v))))
                else if sp.handler == "fail" then some (fun _ _ => Option.none) else Option.none
-    restore := if sp.handler == "wrap" then (fun _ v => .atom (unwrapText (valText v))) else (fun _ v => v)
+    restore := if sp.handler == "wrap" then (fun _ v =>
+        let t := valText v
+        if t.startsWith "{\"W\":" then .ret (.atom (unwrapText t))
+        else if t.startsWith "{" then .exc "KeyError" else .exc "TypeError")
+      else (fun _ v => .ret v)
     runOriginal := sp.runOriginal
     substitute := match sp.substitute with
       | .none => Option.none
